@@ -22,8 +22,8 @@ CONTRACT_GROUPS = ['C13']   # icontract layer (vlib/contracts.py) active inside 
 RULE = ("case = one configuration + point; non-trivial if some constraint kind has a finite bound (info required); distinct key = case index; "
         "monitor_counters count compared entries and how many were violated bounds")
 ASSUMPTIONS = ["with transforms the user-domain result must satisfy the formula with the user-domain bounds (to 1e-9 relative)"]
-REQUIRED = {"quick": {"entries_compared": 20000, "violated_entries": 3000, "mixed_infinite_both_sides": 300, "tracker_checked": 300, "transformed_compared": 1473, "with_mask": 800, "results_without_functions": 600, "explicit_evaluation_vector": 800, "__nontrivial__": 2000},
-            "thorough": {"entries_compared": 400000, "violated_entries": 60000, "mixed_infinite_both_sides": 6000, "tracker_checked": 6000, "transformed_compared": 24061, "with_mask": 15000, "results_without_functions": 10000, "explicit_evaluation_vector": 15000, "__nontrivial__": 40000}}
+REQUIRED = {"quick": {"entries_compared": 20000, "violated_entries": 3000, "mixed_infinite_both_sides": 300, "tracker_checked": 300, "transformed_compared": 1473, "with_mask": 800, "results_without_functions": 600, "points_within_1e-8_of_a_bound": 700, "explicit_evaluation_vector": 800, "__nontrivial__": 2000},
+            "thorough": {"entries_compared": 400000, "violated_entries": 60000, "mixed_infinite_both_sides": 6000, "tracker_checked": 6000, "transformed_compared": 24061, "with_mask": 15000, "results_without_functions": 10000, "points_within_1e-8_of_a_bound": 12000, "explicit_evaluation_vector": 15000, "__nontrivial__": 40000}}
 N = {"quick": 6000, "thorough": 100000}
 
 
@@ -54,6 +54,10 @@ def _formula(obs, name, value, lo, hi, got_lower, got_upper, got_viol, rtol=1e-1
             obs.violation("formula_" + name + "_" + tag, got=g, want=w, value=value, lower=lo, upper=hi)
             ok = False
     obs.count("violated_entries", int(np.count_nonzero(want_v > 0)))
+    gv = np.asarray(got_viol)
+    if gv.shape == want_v.shape and rtol <= 1e-12 and np.any((want_v > 0) & (gv == 0)):
+        obs.violation("outside_a_finite_bound_without_positive_violation", kind=name, got=gv, want=want_v, value=value, lower=lo, upper=hi)
+        ok = False
     return ok
 
 
@@ -68,6 +72,15 @@ def run_case(case, obs):
     lb, ub = _bounds(rng, V)
     lb = np.where(lb == ub, lb - 0.5, lb)  # variable bounds: no equalities needed
     x = rng.normal(size=V) * 1.5           # may violate: results report, they do not enforce
+    if rng.random() < 0.25:
+        # just outside (or inside) a finite bound, by far less than any tolerance in use: a violation is a violation
+        for k in range(V):
+            d = float(rng.choice([3e-9, 4e-11, 2e-13])) * float(rng.choice([-1.0, 1.0]))
+            if np.isfinite(ub[k]) and rng.random() < 0.5:
+                x[k] = ub[k] + d
+            elif np.isfinite(lb[k]):
+                x[k] = lb[k] - d
+        obs.count("points_within_1e-8_of_a_bound")
     spec = {"V": V, "R": int(rng.integers(1, 4)), "oweights": [1.0], "n_con": n_con, "x0": x.tolist(), "lb": lb.tolist(), "ub": ub.tolist(),
             "ensemble": {"kind": "hash", "salt": float(rng.uniform(0, 5))}, "nan": []}
     spec["rweights"] = [1.0] * spec["R"]
